@@ -133,6 +133,8 @@ type Handle struct {
 	curFilter                packets.PacketFilterType
 	opCount                  map[string]int
 	FirstReadAt              time.Time
+	// Poison, when set, makes every later WriteTo/Read/SetReadDeadline/SetPacketFilter of this handle fail with it.
+	Poison error
 	// ReadOverrun is set when the code under test called Read more than MaxReadsPerHandle times.
 	ReadOverrun bool
 	// Overrun is set when the code under test wrote more than MaxEmissionsPerHandle packets.
@@ -175,6 +177,10 @@ func NewWire() *Wire {
 func (w *Wire) fault(h *Handle, op string) (Fault, bool) {
 	// caller holds w.mu
 	w.wireOps[op]++
+	if h != nil && h.Poison != nil && (op == "write" || op == "read" || op == "deadline" || op == "filter") {
+		h.opCount[op]++
+		return Fault{Err: h.Poison}, true
+	}
 	hk := -2
 	cnt := 0
 	if h != nil {
@@ -248,6 +254,17 @@ func (w *Wire) DeliverAt(f *Frame, at time.Time, only *Handle) {
 // Deliver schedules f after delay from now.
 func (w *Wire) Deliver(f *Frame, delay time.Duration, only *Handle) {
 	w.DeliverAt(f, time.Now().Add(delay), only)
+}
+
+// PoisonHandle makes every later operation on h fail with err.
+func (w *Wire) PoisonHandle(h *Handle, err error) {
+	w.mu.Lock()
+	h.Poison = err
+	select {
+	case h.notify <- struct{}{}:
+	default:
+	}
+	w.mu.Unlock()
 }
 
 // Lock/Unlock give scenarios access to a consistent snapshot.
@@ -443,6 +460,11 @@ func (s *simSource) Read(buf []byte) (int, error) {
 	}
 	for {
 		now := time.Now()
+		if h.Poison != nil {
+			err := h.Poison
+			w.mu.Unlock()
+			return 0, err
+		}
 		if h.SourceClosed > 0 {
 			h.Calls = append(h.Calls, Call{Op: "read", At: now, Err: "closed"})
 			w.mu.Unlock()
